@@ -16,8 +16,8 @@ const straceSet = "open,openat,openat2,creat,mkdir,mkdirat,mknod,mknodat,rename,
 	"utime,utimes,utimensat,futimesat,setxattr,lsetxattr,removexattr,lremovexattr"
 
 var (
-	reLine    = regexp.MustCompile(`^(\d+)\s+(\w+)\((.*)$`)
-	reResumed = regexp.MustCompile(`^(\d+)\s+<\.\.\. (\w+) resumed>(.*)$`)
+	reLine    = regexp.MustCompile(`^(\d+)\s+(\d+\.\d+)\s+(\w+)\((.*)$`)
+	reResumed = regexp.MustCompile(`^(\d+)\s+(\d+\.\d+)\s+<\.\.\. (\w+) resumed>(.*)$`)
 	reRet     = regexp.MustCompile(`\)\s+= (-?\d+|\?)(?:[ <].*)?$`)
 	reStr     = regexp.MustCompile(`"((?:[^"\\]|\\.)*)"`)
 	reDirfd   = regexp.MustCompile(`^(?:AT_FDCWD|\d+)<([^>]*)>`)
@@ -45,10 +45,10 @@ func parseStrace(fn, root string) ([]fsFact, error) {
 				continue
 			}
 			delete(pending, m[1])
-			line = m[1] + " " + head + m[3]
+			line = m[1] + " " + m[2] + " " + head + m[4]
 		} else if strings.HasSuffix(line, "<unfinished ...>") {
 			if m := reLine.FindStringSubmatch(line); m != nil {
-				pending[m[1]] = m[2] + "(" + strings.TrimSuffix(m[3], "<unfinished ...>")
+				pending[m[1]] = m[3] + "(" + strings.TrimSuffix(m[4], "<unfinished ...>")
 			}
 			continue
 		}
@@ -56,7 +56,10 @@ func parseStrace(fn, root string) ([]fsFact, error) {
 		if m == nil {
 			continue
 		}
-		call, rest := m[2], m[3]
+		call, rest := m[3], m[4]
+		var sec, usec int64
+		fmt.Sscanf(m[2], "%d.%d", &sec, &usec)
+		ts := time.Unix(sec, usec*1000)
 		r := reRet.FindStringSubmatch(rest)
 		if r == nil || strings.HasPrefix(r[1], "-") || r[1] == "?" {
 			continue // failed call: nothing happened
@@ -91,7 +94,7 @@ func parseStrace(fn, root string) ([]fsFact, error) {
 				continue
 			}
 			rel, _ := filepath.Rel(root, p)
-			out = append(out, fsFact{src: "strace", change: "syscall", path: rel, call: call, flags: flags})
+			out = append(out, fsFact{src: "strace", change: "syscall", path: rel, call: call, flags: flags, t: ts})
 		}
 	}
 	return out, sc.Err()
